@@ -93,10 +93,14 @@ class _Watchdog:
         signal.setitimer(signal.ITIMER_REAL, self.seconds)
         return self
 
-    def __exit__(self, *exc):
+    def __exit__(self, exc_type, exc, tb):
         import signal
         signal.setitimer(signal.ITIMER_REAL, 0)
         signal.signal(signal.SIGALRM, self._old)
+        if exc_type is not None and issubclass(exc_type, MemoryError):
+            # a case that blows up (e.g. a degenerate path with 10^10 segments) is inconclusive,
+            # exactly like one that runs into the watchdog
+            raise CaseTimeout() from exc
         return False
 
 
